@@ -72,10 +72,16 @@ class Wildcard(Base):
     def line(self, line: str) -> None:
         line = h.init_line(line)
         prefix_o, wildmask_o = self._create_prefix(line)
-        self._prefix = prefix_o
-        self._wildmask = wildmask_o
-        self.ipnet = self._create_ipnet()
-        ncwb, prefixlen = self._create_ncwb()
+        backup = self.__dict__.copy()
+        try:
+            self._prefix = prefix_o
+            self._wildmask = wildmask_o
+            self.ipnet = self._create_ipnet()
+            ncwb, prefixlen = self._create_ncwb()
+        except ValueError:
+            self.__dict__.clear()
+            self.__dict__.update(backup)
+            raise
         self._ncwb = ncwb
         self._prefixlen = prefixlen
 
